@@ -106,6 +106,8 @@ PROP = {
         "GunYu.Props.C06.truthful_cache_change",
         "GunYu.Props.C06.reach_inv",
         "GunYu.Props.C06.reach_safe",
+        "GunYu.Props.C06.reach_after_failed_meta",
+        "GunYu.Props.C06.reach_example",
         "GunYu.Props.C06.reach_never_streams_onto_dirty",
         "GunYu.Props.C06.snapshot_not_behind",
         "GunYu.Props.C06.storedCompat_not_invariant",
@@ -114,7 +116,8 @@ PROP = {
     ],
     "expected_facts": EXPECTED_FACTS,
     "harness": [{"name": "C06", "pkg": "./syncer/", "test": "TestVerifC06",
-                 "timeout_quick": "10m", "timeout_thorough": "40m"}],
+                 "timeout_quick": "10m", "timeout_thorough": "40m"},
+                {"name": "C06b", "pkg": "./syncer/", "test": "TestVerifC06Bisync"}],
     "driver": "drv_C06",
     "rule": "one op per (re)connection: the real RedisInput.run (fetchInput, syncMeta, pSync/SendPSync, syncData, readChannel, "
             "sendOutput) with the real StoreChannel (pkg/store, temp dir) or MemoryChannel runs against a RESP source double on "
@@ -183,15 +186,24 @@ PROP = {
         "syncMeta/SendPSync/channel query API are hand-written models tied by correspondence (not regenerated); the skeleton they "
         "transcribe (syncMeta's if-conditions and pSync arguments, its channel/output calls, SendPSync's offset statements) is "
         "re-extracted each run and compared with the expectation in checks/p/C06.py",
-        "a run that ends before anything is delivered (store.NewRdbReader losing the race against the snapshot writer's rename, "
-        "seen ~1/500 disk full syncs) is repeated from scratch by the harness (stat aborted_attempts_repeated); a deterministic abort "
-        "survives the repeats and is reported as run-aborted",
+        "a run that ends before anything is delivered is repeated from scratch by the harness and counted by cause: "
+        "aborted_attempt_store_rdbreader_rename_race = store.NewRdbReader (rdb_reader.go:39) sees neither x.rdb nor x.rdb.tmp while "
+        "the snapshot writer renames (an offset reported valid is unreadable for a moment: C05's subject, reported there; ~1/500 disk "
+        "full syncs); a deterministic abort survives the repeats and is reported as run-aborted",
+        "harness waits are on explicit conditions (reader delivered, writer phase begun, everything stored, position stored) with a "
+        "hard limit of 10 s; an attempt in which a limit was hit is discarded and the case repeated (stalled_attempts_repeated), its "
+        "outcome never becomes compared output; only when the repeat hits the limit too the outcome is taken as the behaviour of the "
+        "code (wait_limit_hit_on_every_attempt; after 3 such cases the limit drops to 1.5 s so that a broken build ends)",
+        "collector on (MaxSize>0, small segments, both backends): monitor-only scenario gcloop (a replayed cached snapshot must be "
+        "followed by the stream from its offset); bisync mode: bookkeeping-level probe TestVerifC06Bisync (session C06b) on the real "
+        "RedisOutput (what StartPoint answers after a completed / an interrupted full resynchronisation with stale recovery state)",
     ],
     "partial": [
-        "not modelled / not generated: the log collector (MaxSize>0) between connections, several run-id directories in one disk store, "
+        "not modelled in Lean: the log collector (its effect enters `Reach` only as an arbitrary well-formed cache replacement; the "
+        "memory collector leaves caches outside CacheWF.contig, covered by the gcloop monitor only), several run-id directories in one disk store, "
         "a +CONTINUE whose id differs from the id INFO returned a moment earlier, the Run() retry loop (ErrCorrupted -> DelRunId, "
         "back-off), diskless replies ($EOF:, $0), int64 wrap of offset+1, an error of channel.StartPoint (ignored by the code), faults "
-        "in output.StartPoint (3 x 2 s retries), bisync bookkeeping",
+        "in output.StartPoint (3 x 2 s retries); bisync mode beyond the bookkeeping probe (no bisync stream is replayed here)",
         "the truth of the target after a Send is set by the model (`afterSend`: .at id1 e) = the sender applies exactly the commands up "
         "to the offset it stores (C01/C07); tied here by the real-send window schedules on the target's request log",
     ],
